@@ -8,6 +8,7 @@ ID = "C10"
 LEAN_MODULES = ["LhasaV.Props.C10"]
 VH_FEATURES = []
 THEOREMS = {"stripSlashes_no_lead": "full", "full_path_flat": "full", "full_path_relative": "full", "full_path_contained": "full: no .. component, relative (given C11's invariant; name != ..)", "dotdot_name_possible": "full: the side condition is necessary",
+            "run_contained_messages": "full: whole-run containment transferred to the message-bearing model (the one tied byte for byte to the tool)",
             "guard_resolves_below_cwd": "full: any file system state", "deferred_link_contained": "full: mutations of a deferred link creation stay under cwd", "deferred_link_refused": "full",
             "run_contained": "FULL STATEMENT (model of the repaired tool, no w=): ANY archive, ANY prompt answers: every mutation of the whole run is below the extraction directory",
             "safe_links_resolve_inside": "full: safe links never lead out",
